@@ -24,6 +24,9 @@ def _trace(scr, jobs, run):
     for r in recs:
         if r.get("status") in ("lost",):
             raise MachineryError("runner lost job %s" % r["id"])
+        if r.get("status") == "crash" and r.get("phase") in ("extract", "runner"):
+            # the harness's own model extraction failed: nothing was observed, so nothing can be judged
+            raise MachineryError("model extraction failed in the runner for %s:\n%s" % (r["id"], r.get("error", "")[-600:]))
     vs, res = e1.validate(recs)
     run.add_tlc(res)
     run.cov["traces_validated_against_impl"] += len(vs)
